@@ -69,3 +69,13 @@ func lemma_C04_DecodeDecrypt_nokeys(msg []byte, withHeader bool, role bool) {
 	}
 	_, _ = DecodeDecrypt(msg, h, nil, message.Role(role))
 }
+
+// header supplied by the caller that was not parsed from these bytes
+//
+//verif:summary (*message.IKEPayloadContainer).Decode
+func lemma_C04_DecodeDecrypt_foreignHeader(msg []byte, next uint8, role bool, integSel, encrSel uint8, ai, ar, ei, er []byte) {
+	sa := verifSA(integSel, encrSel, ai, ar, ei, er)
+	h := new(message.IKEHeader)
+	h.NextPayload = next
+	_, _ = DecodeDecrypt(msg, h, sa, message.Role(role))
+}
